@@ -54,6 +54,12 @@
 (* written in a SINGLE top-down pass through the cacheable UpdateBatch.    *)
 (* That is a valid order exactly when the value covers what every cgroup   *)
 (* holds (pure widening), which is the start condition modelled here.      *)
+(* The code takes this path also when the pool has SHIFTED (an LSE pod took *)
+(* CPUs the BE cgroups hold): the BE root is then written below its        *)
+(* children - recorded finding C12-recover-writes-shifted-pool-top-down,   *)
+(* reproduced on the real code by the trace check.  The repair is PART 2b  *)
+(* with the pool as the new cpuset (loose union top-down, pool bottom-up), *)
+(* which MC shows valid for every target (proposed_fixes/C12b).            *)
 (* Between rewrites IExternal replaces the file contents; the cache entry  *)
 (* of a file changed behind the executor is gone (expired, or the agent    *)
 (* restarted) - see the assumptions in lib/props/C12.py.                   *)
